@@ -326,7 +326,7 @@ def build(sid, seq, parsed, cls):
         checks.append((len(lines) - 1, (len(lines) - 2, rc), st.dump()))
     # observed through the by-name getters too (every option, indices beyond the end, a wrong kind, the short forms)
     lastdump = len(lines) - 1
-    if (cls == 'random' and len(seq) % 2) or (cls != 'random' and sum(seq) % 6 == 0):
+    if (cls == 'random' and len(seq) % 2) or (cls != 'random' and sum(seq) % (6 if len(seq) <= 2 else 60) == 0):
         lines += gen.getter_sweep(SCHEMA, maxidx=2)
     return Scn(sid, lines, {'class': cls, 'checks': checks, 'mixed': ok > 0 and fail > 0, 'seq': seq, 'parsed': parsed, 'lastdump': lastdump})
 
